@@ -139,3 +139,67 @@ pub fn via_jax(ctx: &mut Ctx, f: &Facts, o: &JaxOpts, transitive: bool, what: &s
         }
     }
 }
+
+/// A family of small fact sets over HP:1, HP:118 and up to two further terms, with obsolete / replaced
+/// terms, odd names and all three record kinds - used by the binary and text format properties.
+/// `stride`: keep every stride-th 4-node DAG (1 = all).
+pub fn format_family(max_n: usize, stride: usize) -> Vec<(Facts, String)> {
+    use crate::space::all_dags;
+    let mut out = vec![];
+    for n in 2..=max_n {
+        let dags = all_dags(n);
+        for (di, d) in dags.iter().enumerate() {
+            if n >= 4 && di % stride != 0 {
+                continue;
+            }
+            let mut base = Facts::from_dag(d, &super::c01::POOL_ROOTS);
+            base.version = (2024, 2, 29);
+            let ids: Vec<u32> = base.terms.iter().map(|t| t.id).collect();
+            let last = n - 1;
+            for flags in 0..4 {
+                let mut f = base.clone();
+                let mut what = String::new();
+                match flags {
+                    0 => what.push_str("plain"),
+                    1 => {
+                        // last term obsolete and replaced by an existing term
+                        if ids[last] == 1 || ids[last] == 118 {
+                            continue;
+                        }
+                        f.terms[last].obsolete = true;
+                        f.terms[last].replacement = Some(ids[0]);
+                        what.push_str("last term obsolete+replaced");
+                    }
+                    2 => {
+                        // a term that is replaced but NOT flagged obsolete, and an obsolete one without replacement
+                        f.terms[last].replacement = Some(ids[1]);
+                        if n >= 3 {
+                            f.terms[2].obsolete = ids[2] != 1 && ids[2] != 118;
+                        }
+                        what.push_str("replacement without obsolete flag");
+                    }
+                    _ => {
+                        let names = ["", "x", "\u{e9}", "a: b"];
+                        for (i, t) in f.terms.iter_mut().enumerate() {
+                            t.name = names[i % names.len()].to_string();
+                        }
+                        what.push_str("names \"\", x, é, a: b");
+                    }
+                }
+                let patterns: Vec<Option<u32>> = if n <= 3 { std::iter::once(None).chain((0..(1u32 << n)).map(Some)).collect() } else { vec![None, Some(0b0001), Some(0b0110), Some(0b1111)] };
+                for p in patterns {
+                    let mut g = f.clone();
+                    let pw = match p {
+                        None => "no records".to_string(),
+                        Some(s) => {
+                            g.anns = AnnGroups::new(s, &ids).interleaved();
+                            format!("S={:?}", crate::space::bits(s, n))
+                        }
+                    };
+                    out.push((g, format!("{} / {} / {}", d.describe(), what, pw)));
+                }
+            }
+        }
+    }
+    out
+}
